@@ -516,9 +516,30 @@ pub fn property() -> Property {
         rule: "presets: every (race 1..8, tribe 1..16, gender 0..1) code, all 0..255 for each of the other 23 appearance bytes, highlight flag 0/1, version, timestamp (incl. 0 and MAX), comment of 0..163 bytes (ASCII + UTF-8, no NUL); own codec pinned to absolute byte positions (magic @0, version @4, checksum @8, appearance @0x10.., voice @0x2A, timestamp @0x2C, comment @0x30..0xD4, XOR of byte << (i mod 24) over 0x10..0xD4), validated against the four checked-in presets; checks: own encode -> Physis parse = value; Physis write(parse(x)) = x byte for byte; Physis write(directly constructed value) -> own decode = value with the documented checksum. gear sets: any subset of the 100 rows, names 1..46 bytes, any subset of the 14 slots, 32-bit item / glamour ids, facewear, unknown fields random (must be preserved), validated against simple.dat; same three checks through the 0x73-obfuscated fixed table. Non-trivial: preset with >= 10 non-default appearance bytes; table with >= 2 sets of >= 3 slots; distinct by hash of the file.",
         assumptions: &["bool stored as 0/1; comments <= 163 bytes; names <= 46 bytes (canonical inputs)", "item ids with a bit of the 1_000_000 marker mask set are excluded from the asserted domain while the known finding C09:gear-id-marker-overlap is listed (counted in excluded_known); a dedicated probe keeps exercising one such id", "an absent slot is the bare marker with zero glamour/unknown words; an empty row is the default record (anchored by simple.dat)"],
         pre: Some(pre),
+        post: None,
         parts: vec![
             Box::new(Part { name: "presets", driver: Driver::Gen(preset_strategy, 8_000, 120_000), prop: prop_preset, exhaustive: false }),
             Box::new(Part { name: "gearsets", driver: Driver::Gen(table_strategy, 1_000, 15_000), prop: prop_table, exhaustive: false }),
         ],
     }
+}
+
+pub fn seed_files(ctx: &Ctx, n: usize) -> (Vec<(String, Vec<u8>)>, Vec<(String, Vec<u8>)>) {
+    let mut presets = vec![];
+    let mut tables = vec![];
+    for f in ["arr", "heavensward", "shadowbringers", "stormblood"] {
+        if let Ok(b) = std::fs::read(util::repo_root().join(format!("resources/tests/chardat/{}.dat", f))) {
+            presets.push((format!("fixture-{}", f), b));
+        }
+    }
+    if let Ok(b) = std::fs::read(util::repo_root().join("resources/tests/gearsets/simple.dat")) {
+        tables.push(("fixture".to_string(), b));
+    }
+    let ps = preset_strategy(ctx);
+    let ts = table_strategy(ctx);
+    for k in 0..n as u64 {
+        presets.push((format!("gen{}", k), encode_preset(&draw_fixed(&ps, 0xC09_5EED + k))));
+        tables.push((format!("gen{}", k), encode_table(&draw_fixed(&ts, 0xC09_7AB1 + k))));
+    }
+    (presets, tables)
 }
